@@ -139,6 +139,7 @@ pub fn case(cx: &mut Case) -> CaseResult {
         }
     };
     let mut vb = ValBuilder::new();
+    vb.constructors_only = true; // witness values by plain constructors: the value decoders are not this check's subject (C10) and must not make the harness inconsistent
     vb.allow_machine = false;
     let mut s = cx.src.clone();
     let wit = gen_witnesses(&prog_ir, &typed, &mut s, &mut vb);
